@@ -60,16 +60,22 @@ class C04Origins:
                 s2c = keystream(self.seed, uid, "s2c", m_s2c)
                 post = keystream(self.seed, uid, "post-s2c", P_AFTER)
 
-                async def read_until_eof(into, limit_t=WATCHDOG):
+                async def read_until_eof(into, limit_t=WATCHDOG * (4 if scen in (8, 9) else 1)):
+                    # the watchdog is generous (the scenarios with megabytes share one python event loop with everything
+                    # else); when it fires that is recorded and the scenario is not judged
                     t0 = now()
-                    while now() - t0 < limit_t:
-                        b = await asyncio.wait_for(r.read(1 << 16), limit_t)
-                        if not b:
-                            rec["eof_t"] = now()
-                            rec["events"].append("eof")
-                            return True
-                        into.extend(b)
-                        rec["last_t"] = now()
+                    try:
+                        while now() - t0 < limit_t:
+                            b = await asyncio.wait_for(r.read(1 << 16), limit_t)
+                            if not b:
+                                rec["eof_t"] = now()
+                                rec["events"].append("eof")
+                                return True
+                            into.extend(b)
+                            rec["last_t"] = now()
+                    except asyncio.TimeoutError:
+                        pass
+                    rec["watchdog"] = True
                     return False
                 if scen == 8:
                     w.get_extra_info("socket").setsockopt(socket.SOL_SOCKET, socket.SO_RCVBUF, 65536)
@@ -197,7 +203,7 @@ async def scenario(out, chain, origins, seed, uid, lk, ck, scen, io_name, n_c2s,
             await conn.drain()
             t_fin = now()
             conn.eof()
-            end = await read_to_eof()
+            end = await read_to_eof(WATCHDOG * 4 if scen in (8, 9) else WATCHDOG)
             rec = await origin_rec()
             if rec is None:
                 out.violation("origin never saw the tunnel: " + who, {"scenario": scen})
@@ -206,6 +212,9 @@ async def scenario(out, chain, origins, seed, uid, lk, ck, scen, io_name, n_c2s,
                 if rec["closed_t"]:
                     break
                 await asyncio.sleep(0.01)
+            if rec.get("watchdog"):
+                out.inconclusive += 1
+                return None
             obs["origin_saw_eof"] = rec["eof_t"] is not None and rec["eof_t"] - max(t_fin, rec.get("last_t", 0)) <= B_CLOSE
             obs["origin_bytes_before_eof_ok"] = bytes(rec["c2s"]) == c2s
             obs["client_got_all_after_its_fin"] = bytes(got) == want_s2c + want_post
@@ -231,7 +240,7 @@ async def scenario(out, chain, origins, seed, uid, lk, ck, scen, io_name, n_c2s,
                 await asyncio.sleep(0.6)
                 conn.w.transport.resume_reading()
             # expect all M bytes then EOF while our direction is still open
-            end = await read_to_eof()
+            end = await read_to_eof(WATCHDOG * 4 if scen in (8, 9) else WATCHDOG)
             rec = await origin_rec()
             if rec is None:
                 out.violation("origin never saw the tunnel: " + who, {"scenario": scen})
@@ -255,6 +264,9 @@ async def scenario(out, chain, origins, seed, uid, lk, ck, scen, io_name, n_c2s,
                     if rec["closed_t"]:
                         break
                     await asyncio.sleep(0.01)
+                if rec.get("watchdog"):
+                    out.inconclusive += 1
+                    return None
                 obs["origin_got_post"] = bytes(rec["c2s"]) == c2s + post_c2s
                 obs["origin_saw_eof"] = rec["eof_t"] is not None and rec["eof_t"] - max(t_fin, rec.get("last_t", 0)) <= B_CLOSE
                 if not obs["origin_got_post"]:
@@ -265,7 +277,7 @@ async def scenario(out, chain, origins, seed, uid, lk, ck, scen, io_name, n_c2s,
         elif scen == 10:
             conn.write(c2s)
             await conn.drain()
-            end = await read_to_eof()
+            end = await read_to_eof(WATCHDOG * 4 if scen in (8, 9) else WATCHDOG)
             rec = await origin_rec()
             if rec is None:
                 out.violation("origin never saw the tunnel: " + who, {"scenario": scen})
@@ -338,7 +350,7 @@ async def scenario(out, chain, origins, seed, uid, lk, ck, scen, io_name, n_c2s,
             await conn.drain()
             t_fin = now()
             conn.eof()
-            end = await read_to_eof()
+            end = await read_to_eof(WATCHDOG * 4 if scen in (8, 9) else WATCHDOG)
             rec = await origin_rec()
             if rec is None:
                 out.violation("origin never saw the tunnel: " + who, {"scenario": scen})
@@ -374,7 +386,7 @@ async def scenario(out, chain, origins, seed, uid, lk, ck, scen, io_name, n_c2s,
         elif scen == 5:
             conn.write(c2s)
             await conn.drain()
-            end = await read_to_eof()
+            end = await read_to_eof(WATCHDOG * 4 if scen in (8, 9) else WATCHDOG)
             rec = await origin_rec()
             obs["client_observes_end"] = end in ("eof", "rst") and rec is not None and t_close.get("client_eof", 1e18) - rec.get("rst_t", 0) <= B_CLOSE
             if end == "timeout":
@@ -533,7 +545,8 @@ async def main(args):
                 for small in (False, True):
                     uid += 1
                     batch.append((uid, lk, ck, sc, (6 << 20) if sc == 8 else 5000, 5000 if sc == 8 else (6 << 20), small))
-        obs = await asyncio.gather(*[scenario(out, chain, origins, args.seed, u, lk, ck, sc, "splice-256k", n, m) for (u, lk, ck, sc, n, m, small) in batch])
+        for i in range(0, len(batch), 5):
+            await asyncio.gather(*[scenario(out, chain, origins, args.seed, u, lk, ck, sc, "splice-256k", n, m) for (u, lk, ck, sc, n, m, small) in batch[i:i + 5]])
         dead = chain.dead()
         if dead:
             out.violation("proxy process died during close scenarios", {"dead": dead})
